@@ -9,7 +9,8 @@ Open Scope Z_scope.
 Inductive fxop :=
 | FXInit | FXStep | FXRun (d : Z)
 | FXAt (t : Z) (k : nat) (prio : Z)       (* schedule user script k as an event *)
-| FXNow (o : uop).                        (* a call made between events *)
+| FXNow (o : uop)                         (* a call made between events *)
+| FXLate (d : Z) (ups : list Z).          (* Device(upstream=ups) constructed between events, while the simulation is in progress *)
 
 Record fl_scn := mkFlScn {
   fq_seed : Z; fq_mod : Z;
@@ -107,6 +108,20 @@ Definition decode_fl_tuple (sc : fl_scn) (tp : tup8) : fl_scn :=
     setw (w2 <| f_groups ::= fun l => match aget a l with
                                       | Some gr => aset a (mkGroup (g_in gr) (g_out gr) (g_paths gr ++ [gp])) l
                                       | None => l end |>)
+  else if op =? 108 then
+    (* a device constructed later (FXLate): declared under the reserved key 1000 + a, no id taken yet, not connected *)
+    let k := kind_of_code b in
+    let x0 := (blank_dev k) <| d_live := false |> in
+    let x := match k with
+             | KHandler => x0 <| d_cycle := c |>
+             | KProcessor => x0 <| d_cycle := c |> <| d_wo_dur := d |> <| d_wo_cap := e |> <| d_wo_cost := f |>
+             | KBuffer => x0 <| d_min_delay := c |> <| d_capacity := capz d |>
+             | KSink => x0 <| d_cycle := c |> <| d_collect := negb (d =? 0) |>
+             | KBatcher => x0 <| d_batch_size := capz c |>
+             | KGate => x0 <| d_decider := decider_of_code c d |>
+             | _ => x0
+             end in
+    setw (w <| f_devs ::= fun l => l ++ [(1000 + a, x)] |>)
   else if op =? 107 then setw (updd w a (fun x => x <| d_gen_pattern := map (fun c0 => c0 - 2) (nz [b; c; d; e; f; g]) |>))
   else if op =? 104 then setw (updd w a (fun x => x <| d_req := Some (mk_req6 [b; c; d; e; f; g]) |>))
   else if op =? 105 then
@@ -123,6 +138,7 @@ Definition decode_fl_tuple (sc : fl_scn) (tp : tup8) : fl_scn :=
   else if op =? 111 then addx (FXAt a (Z.to_nat b) c)
   else if op =? 112 then addx FXInit
   else if op =? 113 then addx (FXNow (uop_of_code a b c d))
+  else if op =? 114 then addx (FXLate a (nz [b; c; d]))
   else if op =? 14 then addx FXStep
   else if op =? 15 then addx (FXRun a)
   else sc.
@@ -175,7 +191,24 @@ Definition init_dev (fuel : nat) (nw : Z) (w : fw) (d : Z) : fw :=
 
 Definition init_world (fuel : nat) (nw : Z) (w : fw) : fw :=
   let w1 := rm_call w (rm_initialize nw) in
-  fold_left (init_dev fuel nw) (map fst (f_devs w1)) w1.
+  fold_left (init_dev fuel nw) (filter (fun d => d_live (getd w1 d)) (map fst (f_devs w1))) w1.
+
+(** a device constructed while the simulation is in progress: [Device(upstream=ups)] between two events.  The constructor takes the
+    next asset id, connects the device (the upstream devices are told at once: rewire) and, the system being initialised already,
+    the registration initialises it.  Which kinds: everything with an upstream side that is not part of a group.  Initialisation is
+    written first: it touches only the new device's own clock fields, which the connection does not read (the lock-step compares
+    the whole state after the call). *)
+Definition late_kind (k : kind) : bool :=
+  match k with KPfc | KGate | KHandler | KProcessor | KBuffer | KSink | KBatcher => true | _ => false end.
+
+Definition t_live (x : dev) : dev := x <| d_live := true |>.
+
+Definition late_create (fuel : nat) (nw : Z) (w : fw) (d : Z) (ups : list Z) : fw :=
+  let x := getd w d in
+  if d_live x || negb (pristine x) || negb (late_kind (d_kind x)) || negb (amem d (f_devs w))
+     || negb (match d_up x, d_down x with [], [] => true | _, _ => false end) then failf w E_ASSERT else
+  let w1 := updd (w <| f_next_id := f_next_id w + 1 |>) d t_live in
+  rewire fuel nw (init_dev fuel nw w1 d) d ups.
 
 Definition to_cmd_f (c : fcmd) : cmd fact :=
   match c with
@@ -250,7 +283,8 @@ Definition enc_fl_event (e : event fact) : list Z :=
   [Z.of_nat (e_id e); e_time e; e_prio e; e_w e; e_asset e] ++ enc_fact (e_act e) ++ [bZ (e_cancelled e)].
 
 Definition enc_fw (w : fw) : list Z :=
-  [f_next_id w; Z.of_nat (length (f_devs w))] ++ flat_map (fun e => enc_dev (fst e) (snd e)) (f_devs w)
+  let live := filter (fun e => d_live (snd e)) (f_devs w) in
+  [f_next_id w; Z.of_nat (length live)] ++ flat_map (fun e => enc_dev (fst e) (snd e)) live
   ++ [Z.of_nat (length (r_pools (f_rm w)))] ++ flat_map (fun p => [fst p; fst (snd p); snd (snd p)]) (r_pools (f_rm w))
   ++ [Z.of_nat (length (r_wait (f_rm w)))] ++ flat_map (fun e => Z.of_nat (we_cb e) :: enc_req_f (we_req e)) (r_wait (f_rm w))
   ++ [Z.of_nat (length (r_res (f_rm w)))] ++ flat_map enc_req_f (r_res (f_rm w))
@@ -286,6 +320,7 @@ Definition do_fxop (sc : fl_scn) (s : fw * env fact) (x : fxop) : (fw * env fact
   match x with
   | FXInit => fin (init_world (fl_fuel (fst s)) nw (fst s))
   | FXNow o => fin (run_uop (fl_fuel (fst s)) nw (fst s) o)
+  | FXLate d ups => fin (late_create (fl_fuel (fst s)) nw (fst s) d ups)
   | FXAt t k p => match apply_cmd ws (snd s) (CSched t p (-5) (AUser k)) with
                   | Ok en => ((fst s, en), 0) | Err en => ((fst s, en), 1) end
   | FXStep => after (step ws (exec_fl sc) fl_wfail s) 2
